@@ -109,6 +109,7 @@ def tasks(tier, seed):
     out = [('seq', i) for i in range(len(kseq()))]
     out += [('trail',) + tuple(t) for t in frames.frame_tasks(tier)]
     out += [('views', i) for i in range(len(kseq()))]
+    out += [('consumer-loop',)]
     out += [('env',) + tuple(t) for t in fuzzspace.tasks(tier, seed)]
     return out
 
@@ -379,6 +380,69 @@ def check_envelope(ctx, label, data):
     return True
 
 
+def check_consumer_loop(ctx):
+    """The sans-io receive loop over a bytearray: decode at the front, keep
+    the frame, delete the consumed bytes, go on. The decoder need not accept
+    a bytearray (a refusal ends the stream), but when it does, the buffer
+    is the caller's again when the call returns - it can be resized, and
+    what is done to it afterwards does not reach the frames handed out."""
+    p = lib.pamqp()
+    M = corpus.spec_table.BY_NAME
+    small = [refcodec.enc_body_frame(b'abc', 1)[0], refcodec.HEARTBEAT,
+             refcodec.enc_method_frame(M['Basic.Ack'], (7, True), 2)[0],
+             refcodec.enc_method_frame(M['Basic.Publish'],
+                                       (0, 'e', 'k', False, False), 3)[0],
+             refcodec.enc_header_frame(5, {'app_id': 'a'}, 3)[0]]
+    sizes = [1, 4096, 131072, (1 << 20) - 1, 1 << 20, (1 << 20) + 1, 3 << 20]
+    streams = [small, small[:3] * 3]
+    for n in sizes:
+        body = refcodec.enc_body_frame(bytes([n % 251]) * n, 5)[0]
+        streams.append([body, small[0], body, small[2]])
+        streams.append([small[2], body])
+    for no, frames_ in enumerate(streams):
+        buf = bytearray(b''.join(frames_))
+        ctx.case(('consumer-loop', no), True, sample={
+            'stream': [len(f) for f in frames_]})
+        ctx.valid()
+        kept, bad = [], None
+        for k, want in enumerate(frames_):
+            try:
+                consumed, channel, obj = p.frame.unmarshal(buf)
+                ctx.calls()
+            except Exception:  # noqa - a bytearray need not be accepted
+                break
+            kept.append((want, consumed, channel, obj))
+            try:
+                del buf[:consumed]
+            except BufferError as exc:
+                bad = ('after frame {} ({} bytes) was decoded from the '
+                       'receive buffer the caller cannot resize its own '
+                       'buffer: {!r}'.format(k, len(want), exc))
+                break
+            buf[:16] = b'\xa5' * min(16, len(buf))   # refill in place
+            buf[:16] = b''.join(frames_[k + 1:])[:min(16, len(buf))]
+        if bad is None:
+            buf[:] = b'\x5a' * len(buf)
+            for k, (want, consumed, channel, obj) in enumerate(kept):
+                ref = refcodec.dec_frame(want)
+                problems = _view_result_ok(ref, consumed, channel, obj)
+                if problems:
+                    bad = ('frame {} of the stream, looked at after the '
+                           'receive buffer was consumed and overwritten: '
+                           '{}'.format(k, '; '.join(problems)[:300]))
+                    break
+        if bad:
+            ctx.outcome('consumer-loop-broken')
+            ctx.violation('consumer-loop|%d' % no,
+                          'receive loop over a bytearray holding frames of '
+                          '{} bytes: {}'.format([len(f) for f in frames_],
+                                                bad),
+                          {'kind': 'consumer-loop'}, 'independent frames',
+                          bad)
+        else:
+            ctx.outcome('ok')
+
+
 FOLLOWERS = [b'\xce' + b'a' * 300]
 
 
@@ -424,6 +488,8 @@ def run(task, ctx):
         for length in range(1, maxlen + 1):
             for rest in itertools.product(range(n), repeat=length - 1):
                 explore_sequence(ctx, (first,) + rest)
+    elif kind == 'consumer-loop':
+        check_consumer_loop(ctx)
     elif kind == 'views':
         ks = kseq()
         first = ks[task[1]]
@@ -457,6 +523,9 @@ def run(task, ctx):
 
 
 def replay(case, ctx):
+    if case.get('kind') == 'consumer-loop':
+        check_consumer_loop(ctx)
+        return
     if case.get('kind') == 'follow':
         check_followers(ctx, case.get('label', ''),
                         bytes.fromhex(case['hex']))
